@@ -17,7 +17,7 @@ pub fn def() -> CheckDef {
         level: "exploration",
         assumptions: &["one dispatch task delivers a message to all channels registered at that moment, so registration is judged at the dispatch (observed through the match-all channel)", "patterns are generated inside the glob subset named in the property", "monotone simulated clock"],
         probes: &["probe.strict_subset_channel", "probe.close_between_deliveries", "probe.reopen", "probe.unsub", "probe.alternation", "probe.char_class", "probe.question_mark", "probe.tag_matched_by_model_tag", "probe.event_filtered"],
-        quick_cases: 2500,
+        quick_cases: 6000,
         no_shrink: &[],
     }
 }
@@ -113,7 +113,7 @@ fn pattern(rng: &mut vsim::rng::Rng, values: &[&str]) -> String {
 }
 
 fn gen_scenario(rng: &mut vsim::rng::Rng) -> Scenario {
-    let opts = LifeOpts { catches: true, scripted_actions: &["complete", "complete", "error", "skip", "abort", "submit"], p_scripted: *rng.pick(&[0, 200, 400]), adversary: None, dup: false, generators: rng.below(4) == 0, hooks: false, outputs: false };
+    let opts = LifeOpts { catches: true, scripted_actions: &["complete", "complete", "error", "skip", "abort", "submit"], p_scripted: *rng.pick(&[0, 200, 400]), adversary: None, dup: false, generators: rng.below(4) == 0, hooks: false, outputs: false, drop_outputs: true };
     let mut sc = gen_lifecycle(rng, &opts);
     // tags
     let tags = ["t1", "t2", "red", "blue"];
